@@ -244,8 +244,6 @@ func (c *Client) Join(ctx context.Context, room jid.JID, s *xmpp.Session, opt ..
 // presence.
 // Changing the presence type has no effect.
 func (c *Client) JoinPresence(ctx context.Context, p stanza.Presence, s *xmpp.Session, opt ...Option) (*Channel, error) {
-	c.managedM.Lock()
-
 	channel := &Channel{
 		addr:    p.To,
 		client:  c,
@@ -254,12 +252,6 @@ func (c *Client) JoinPresence(ctx context.Context, p stanza.Presence, s *xmpp.Se
 		join:   make(chan joinCtx, 1),
 		depart: make(chan struct{}),
 	}
-	if c.managed == nil {
-		c.managed = make(map[string]*Channel)
-	}
-	c.managed[p.To.String()] = channel
-	c.managedM.Unlock()
-
 	err := channel.JoinPresence(ctx, p, opt...)
 	return channel, err
 }
